@@ -19,7 +19,7 @@ ALL_CHECKS = ["C04", "C05", "C08", "C03", "C10", "C11", "C18", "C06", "R08", "R0
 BASE = dict(Splits=frozenset({"train", "test"}), FillerDirs=frozenset({(), ("s",), ("s", "t")}),
             WriterNames=("u1", "u2", "u3", "u4", "u5", "u6"), EPS=2, MDs=frozenset({"None"}),
             Kinds=frozenset({"good"}), Streaming=False, Hashing=True, Atomic=True, MaxSessions=2, MaxWrites=3,
-            MaxK=2, Dedupe=True, EmptyRoll=False, MdByRef=False, UseRef=False, Protocol="good", NoMkdir=False, CrashOn=False, ReaderOn=False)
+            MaxK=2, Dedupe=True, EmptyRoll=False, MdByRef=False, UseRef=False, Protocol="good", NoMkdir=False, CheckChildren=True, CrashOn=False, ReaderOn=False)
 
 INVARIANTS = ["TypeOK", "NoSessionFails", "C04_Exact", "C05_Pass", "C08_AppendOnly", "C03_WriteOrder", "C10_Size",
               "C11_Label", "C18_AllOrNothing", "C06_CrashSafe", "C09_NoSharedPath"]
@@ -170,6 +170,9 @@ _POOL = None
 def _init_worker():
     os.environ.setdefault("TF_CPP_MIN_LOG_LEVEL", "3")
     os.environ["TQDM_DISABLE"] = "1"
+    from . import rustext
+    if rustext.SO.exists():
+        rustext.preload()
     import sedpack.io  # noqa: F401  pylint: disable=unused-import
 
 
